@@ -183,27 +183,85 @@ func c06ReorgBracket(c *rep.Ctx) {
 	}
 	// the marker records fork point, old best and new top
 	if mf := c.Fn("chain.NewReorgMarker"); mf != nil {
+		mg := mf.Graph()
 		info := mf.Info()
-		need := map[string]string{"BrStartHash": "brStartBlock", "BrBestHash": "bestBlock", "BrTopHash": "brTopBlock"}
-		got := map[string]bool{}
-		ast.Inspect(mf.Body, func(n ast.Node) bool {
-			kv, ok := n.(*ast.KeyValueExpr)
-			if !ok {
-				return true
-			}
-			id, ok := kv.Key.(*ast.Ident)
-			if !ok {
-				return true
-			}
-			if src, want := need[id.Name]; want {
-				if fld := c.Prog.LookupField("chain", "reorganizer", src); fld != nil && readsField(info, kv.Value, fld) && containsCallTo(info, kv.Value, "types.(*Block).BlockHash") {
-					got[id.Name] = true
+		rst := c.Prog.LookupStruct("chain", "reorganizer")
+		mst := c.Prog.LookupStruct("chain", "ReorgMarker")
+		if rst == nil || mst == nil {
+			c.Undecide("reorg-bracket", "chain.NewReorgMarker|fields", "struct reorganizer / ReorgMarker not found")
+		} else {
+			// every value stored in a marker field: key of a ReorgMarker literal or
+			// assignment to the field (the role of each block is decided with the
+			// once-defined locals resolved, so the spelling of the value is free)
+			vals := c06MarkerFieldValues(info, mf.Body, mst)
+			need := map[string]string{"BrStartHash": "brStartBlock", "BrBestHash": "bestBlock", "BrTopHash": "brTopBlock"}
+			got := 0
+			for dst, src := range need {
+				ok := len(vals[dst]) > 0
+				for _, v := range vals[dst] {
+					from := c06GapFieldsOf(mg, info, v, rst)
+					ok = ok && len(from) == 1 && from[0] == src && c06GapCalls(mg, info, v, "types.(*Block).BlockHash")
+				}
+				if ok {
+					got++
 				}
 			}
-			return true
-		})
-		c.Check("reorg-bracket", "chain.NewReorgMarker|fields", mf.Pos(), len(got) == 3, "the marker records the hashes of the fork point, the old best block and the new branch tip")
+			c.Check("reorg-bracket", "chain.NewReorgMarker|fields", mf.Pos(), got == 3, "the marker records the hashes of the fork point, the old best block and the new branch tip")
+		}
 	}
+}
+
+// c06MarkerFieldValues lists, per field name of struct st, the expressions
+// stored in that field inside body: keyed elements of composite literals of the
+// struct type and (parallel) assignments to the field.
+func c06MarkerFieldValues(info *types.Info, body ast.Node, st *types.Struct) map[string][]ast.Expr {
+	vals := map[string][]ast.Expr{}
+	isField := func(v *types.Var) bool {
+		for i := 0; v != nil && i < st.NumFields(); i++ {
+			if st.Field(i) == v {
+				return true
+			}
+		}
+		return false
+	}
+	ast.Inspect(body, func(n ast.Node) bool {
+		switch x := n.(type) {
+		case *ast.CompositeLit:
+			tv, ok := info.Types[x]
+			if !ok {
+				return true
+			}
+			t := tv.Type
+			if p, isPtr := t.(*types.Pointer); isPtr {
+				t = p.Elem()
+			}
+			if lst, _ := t.Underlying().(*types.Struct); lst != st {
+				return true
+			}
+			for i, el := range x.Elts {
+				if kv, isKV := el.(*ast.KeyValueExpr); isKV {
+					if id, isID := kv.Key.(*ast.Ident); isID {
+						if fv, _ := info.Uses[id].(*types.Var); isField(fv) {
+							vals[fv.Name()] = append(vals[fv.Name()], kv.Value)
+						}
+					}
+				} else if i < st.NumFields() {
+					vals[st.Field(i).Name()] = append(vals[st.Field(i).Name()], el) // positional literal
+				}
+			}
+		case *ast.AssignStmt:
+			if len(x.Lhs) != len(x.Rhs) {
+				return true
+			}
+			for i, l := range x.Lhs {
+				if fv := an.FieldOf(info, l); isField(fv) {
+					vals[fv.Name()] = append(vals[fv.Name()], x.Rhs[i])
+				}
+			}
+		}
+		return true
+	})
+	return vals
 }
 
 func c06Startup(c *rep.Ctx) {
@@ -299,12 +357,23 @@ func c06Startup(c *rep.Ctx) {
 	if f := c.Fn("chain.(*ChainService).recoverNormal"); f != nil {
 		g := f.Graph()
 		info := f.Info()
-		var eq an.Set
+		// one operand is the state DB's root, the other the state root of a block
+		// header, in either order, directly or through once-defined locals
+		rootF := c.Prog.LookupField("types", "BlockHeader", "BlocksRootHash")
+		sdbRoot := func(e ast.Expr) bool {
+			return c06GapCalls(g, info, e, "state/statedb.(*StateDB).GetRoot", "state.(*ChainStateDB).GetRoot")
+		}
+		hdrRoot := func(e ast.Expr) bool {
+			return c06GapCalls(g, info, e, "types.(*BlockHeader).GetBlocksRootHash") || c06GapReads(g, info, e, rootF)
+		}
+		eq := an.Set{}
 		for _, s := range g.CallsTo("bytes.Equal") {
-			a := containsCallTo(info, s.Call, "state/statedb.(*StateDB).GetRoot")
-			b := containsCallTo(info, s.Call, "types.(*BlockHeader).GetBlocksRootHash")
-			if a && b {
-				eq = g.BoolEdges(s, true)
+			if len(s.Call.Args) != 2 {
+				continue
+			}
+			a, b := s.Call.Args[0], s.Call.Args[1]
+			if (sdbRoot(a) && hdrRoot(b)) || (sdbRoot(b) && hdrRoot(a)) {
+				eq = eq.Union(g.BoolEdges(s, true))
 			}
 		}
 		ok := len(eq) > 0
@@ -341,16 +410,64 @@ func c06RecoExecutor(c *rep.Ctx) {
 	if f == nil {
 		return
 	}
-	_ = f.Graph()
+	g := f.Graph()
 	info := f.Info()
 	has := boolGate(c, f, true, "state/statedb.(*StateDB).HasMarker")
 	set := sitesOf(f, "state.(*ChainStateDB).SetRoot")
 	mustPrecede(c, "reco-executor", f, has, set, nil, "during crash recovery a block's state is adopted without re-execution only if its finalisation marker exists")
-	ok := len(has.sites) == 1 && len(set) == 1
+	ok := len(has.sites) == 1 && len(set) == 1 && len(has.sites[0].Call.Args) == 1 && len(set[0].Call.Args) == 1
 	if ok {
-		a := an.ExprString(has.sites[0].Call.Args[0])
-		b := an.ExprString(set[0].Call.Args[0])
-		ok = a == b && mentions(info, has.sites[0].Call.Args[0], f.ParamObj(1)) && containsCallTo(info, set[0].Call.Args[0], "types.(*BlockHeader).GetBlocksRootHash")
+		// both arguments denote the state root of the header of the block handed
+		// in (directly or through once-defined locals): then they are the same root
+		blk := f.ParamObj(1)
+		rootF := c.Prog.LookupField("types", "BlockHeader", "BlocksRootHash")
+		ok = c06RootOfBlock(g, info, has.sites[0].Call.Args[0], blk, rootF) && c06RootOfBlock(g, info, set[0].Call.Args[0], blk, rootF)
 	}
 	c.Check("reco-executor", "chain.(*ChainService).executeBlockReco|same-root", posOf(set), ok, "the root whose marker is checked is the root that is adopted: the state root of the block's header")
+}
+
+// c06Peel strips parentheses and follows once-defined locals to the
+// expression that defines them (x := e; y := x  =>  y denotes e).
+func c06Peel(g *an.Graph, info *types.Info, e ast.Expr) ast.Expr {
+	for i := 0; i < 4 && e != nil; i++ {
+		e = ast.Unparen(e)
+		id, isID := e.(*ast.Ident)
+		if !isID {
+			return e
+		}
+		v, isVar := info.Uses[id].(*types.Var)
+		if !isVar {
+			return e
+		}
+		rhs, _ := g.SingleDef(v)
+		if rhs == nil {
+			return e
+		}
+		if tv, has := info.Types[rhs]; has {
+			if _, isTuple := tv.Type.(*types.Tuple); isTuple {
+				return e // one of several results of a call: not an alias of the call
+			}
+		}
+		e = rhs
+	}
+	return e
+}
+
+// c06RootOfBlock: e denotes (locals resolved) the BlocksRootHash of a header
+// reached from block object blk: X.GetBlocksRootHash() or X.BlocksRootHash with
+// blk mentioned in X.
+func c06RootOfBlock(g *an.Graph, info *types.Info, e ast.Expr, blk types.Object, rootF *types.Var) bool {
+	if blk == nil {
+		return false
+	}
+	switch x := c06Peel(g, info, e).(type) {
+	case *ast.CallExpr:
+		fn := an.Callee(info, x)
+		sel, isSel := ast.Unparen(x.Fun).(*ast.SelectorExpr)
+		return fn != nil && isSel && an.FuncName(fn) == "types.(*BlockHeader).GetBlocksRootHash" && c06GapMentions(g, info, sel.X, blk)
+	case *ast.SelectorExpr:
+		fv := an.FieldOf(info, x)
+		return fv != nil && fv == rootF && c06GapMentions(g, info, x.X, blk)
+	}
+	return false
 }
